@@ -319,3 +319,20 @@ LEMMAS.update({
     "def.CacheOK": "CacheOK = each present cache field is correct for the node's current successor signature (definition)",
     "L3+L8.cache_consequences": "no candidate => no owned attractor; one candidate in a successor-free trap space => it lies in the only attractor (L3: a trap space contains an attractor; L8: attractors are disjoint); a system of representatives covers",
 })
+
+
+def mem_theory(lty, prefix):
+    """membership predicate for lists of type lty with its definitional axioms (elimination / introduction / append / empty)"""
+    es = lty.elem.sort()
+    Mem = z3.Function(f"Mem_{prefix}", lty.sort(), es, B)
+    idx = z3.Function(f"idxof_{prefix}", lty.sort(), es, I)
+    l, x, n, a, s_, k = z3.Const(f"l!{prefix}", lty.sort()), z3.Const(f"x!{prefix}", es), z3.Int(f"n!{prefix}"), \
+        z3.Const(f"a!{prefix}", z3.ArraySort(I, es)), z3.Const(f"s!{prefix}", es), z3.Int(f"k!{prefix}")
+    ax = [
+        z3.ForAll([l, x], z3.Implies(Mem(l, x), z3.And(0 <= idx(l, x), idx(l, x) < lty.len(l), lty.at(l)[idx(l, x)] == x)), patterns=[Mem(l, x)]),
+        z3.ForAll([l, k], z3.Implies(z3.And(0 <= k, k < lty.len(l)), Mem(l, lty.at(l)[k])), patterns=[lty.at(l)[k]]),
+        z3.ForAll([n, a, s_, x], z3.Implies(n >= 0, Mem(lty.mk(n + 1, z3.Store(a, n, s_)), x) == z3.Or(Mem(lty.mk(n, a), x), x == s_)),
+                  patterns=[Mem(lty.mk(n + 1, z3.Store(a, n, s_)), x)]),
+        z3.ForAll([l, x], z3.Implies(lty.len(l) <= 0, z3.Not(Mem(l, x))), patterns=[Mem(l, x)]),
+    ]
+    return Mem, ax
